@@ -58,8 +58,10 @@ func SolutionCheck(
 		)
 	}
 
+	// The check plans and un-plans units to probe them, and an un-plan can be
+	// rejected: it works on a copy so that the given solution is never altered.
 	nextCheck := &checkImpl{
-		solution:  solution,
+		solution:  solution.Copy(),
 		verbosity: verbosity,
 		output: schema.Output{
 			DurationMaximum: options.Duration.Seconds(),
